@@ -39,7 +39,9 @@ static object_t *uhandle[NOBJ];
 static int exist_used[NOBJ];
 static int call_used[NCALL], call_handle[NCALL];
 static int sent_used[NSENT], sent_owner[NSENT];
+static object_t *sent_ownerp[NSENT];
 static int depth = 0;
+static int applied = 0;	/* an apply() happened: allocd_strings is no longer compared (apply cache) */
 
 static struct { void *p; int kind; } cells[8192];
 static int ncells = 0;
@@ -158,7 +160,7 @@ static void print_state (const char *status)
     }
   snapshot (now);
   *o = 0;
-  if (lpc_mode)
+  if (lpc_mode || applied)
     vh_out ("%s st:%ld,%ld,%ld,%ld,%ld,-,%ld", buf, now[0] - base[0], now[1] - base[1], now[2] - base[2],
             now[3] - base[3], now[4] - base[4], now[6] - base[6]);
   else
@@ -487,7 +489,8 @@ static int applicable (int n, char **t, int *a)
   if (!strcmp (op, "sent"))
     return n == 5 && a[1] >= 0 && a[1] < NSENT && objok (a[2]) && SL (a[3]) && SL (a[4]) && !sent_used[a[1]];
   if (!strcmp (op, "rmsent"))
-    return n == 2 && a[1] >= 0 && a[1] < NSENT && sent_used[a[1]];
+    return n == 2 && a[1] >= 0 && a[1] < NSENT && sent_used[a[1]] && objok (sent_owner[a[1]])
+      && hobj (sent_owner[a[1]]) == sent_ownerp[a[1]];
   if (!strcmp (op, "err"))
     return n == 3 && lpc_mode && SL (a[1]) && SL (a[2]);
   if (!strcmp (op, "efun"))
@@ -504,6 +507,8 @@ static int c06_cmd (char *line)
     {
       lpc_mode = !strcmp (line + 5, "lpc");
       started = 1;
+      for (int i = 0; i < NSLOT; i++)
+        uslots[i] = const0;
       if (lpc_mode)
         {
           error_context_t econ;
@@ -547,7 +552,10 @@ static int c06_cmd (char *line)
       return 1;
     }
   if (!started)
-    return 0;
+    {
+      char m[] = "mode unit";	/* a case without a mode line runs in unit mode */
+      c06_cmd (m);
+    }
   if (halted)
     return 1;
   snprintf (copy, sizeof copy, "%s", line);
@@ -600,6 +608,7 @@ static int c06_cmd (char *line)
       current_time += 2;
       eval_cost = CONFIG_INT (__MAX_EVAL_COST__);
       call_out ();
+      applied = 1;
       for (int k = 0; k < NCALL; k++)
         call_used[k] = 0;
     }
@@ -654,6 +663,7 @@ static int c06_cmd (char *line)
       if (hobj (a[1]))
         track (hobj (a[1]), K_OBJ);
       exist_used[a[1]] = 1;
+      applied = 1;
     }
   else if (!strcmp (t[0], "dest"))
     {
@@ -670,6 +680,7 @@ static int c06_cmd (char *line)
     {
       sent_used[a[1]] = 1;
       sent_owner[a[1]] = a[2];
+      sent_ownerp[a[1]] = hobj (a[2]);
     }
   else if (!strcmp (t[0], "rmsent"))
     sent_used[a[1]] = 0;
